@@ -359,7 +359,7 @@ impl Property for C07 {
         true
     }
     fn case_timeout(&self) -> std::time::Duration {
-        std::time::Duration::from_secs(8)
+        std::time::Duration::from_secs(30)
     }
     fn describe(&self, bytes: &[u8]) -> J {
         let (nt, ops) = decode(bytes);
